@@ -192,14 +192,19 @@ func (c *childProc) runOne(cs *Case) (o Obs, ok bool) {
 
 // runAll executes the cases in order, restarting the child when it dies; a
 // death is attributed by re-running the case in flight alone in a fresh child.
+var handlerSecs = map[string]float64{}
+
 func runAll(cases []*Case, note func(string)) []Obs {
 	obs := make([]Obs, len(cases))
 	var ch *childProc
+	crashes := 0
 	for i := 0; i < len(cases); i++ {
 		if ch == nil {
 			ch = startChild()
 		}
+		t0 := time.Now()
 		o, ok := ch.runOne(cases[i])
+		handlerSecs[cases[i].H] += time.Since(t0).Seconds()
 		if ok {
 			obs[i] = o
 			continue
@@ -207,6 +212,11 @@ func runAll(cases []*Case, note func(string)) []Obs {
 		tail := tailOf(ch.errb.String())
 		ch.stop()
 		ch = nil
+		crashes++
+		if crashes > 12 { // many crashes (a broken build): attribute to the case in flight without the solo re-run
+			obs[i] = Obs{Panic: !o.Hang, Hang: o.Hang, Where: "goroutine", PMsg: firstPanicLine(tail)}
+			continue
+		}
 		// attribute: run case i alone
 		solo := startChild()
 		o2, ok2 := solo.runOne(cases[i])
@@ -347,5 +357,9 @@ func main() {
 	}
 	sort.Strings(names)
 	run.SetExtra("handlers", names)
+	for k, v := range handlerSecs {
+		handlerSecs[k] = float64(int(v*10)) / 10
+	}
+	run.SetExtra("seconds_per_handler", handlerSecs)
 	run.Finish()
 }
